@@ -494,3 +494,7 @@ def gen_sequences(ctx):
 
 
 UNITS.append(Unit("sequences", gen_sequences, check_sequence, shards=(2, 8)))
+
+
+from vlib import clidiff
+UNITS.append(clidiff.unit("C11", strategy=clidiff.cases_edits))
